@@ -21,7 +21,8 @@ Fixpoint vars_expr (e : expr) (acc : list string) {struct e} : list string :=
   | ELit _ | EPanic | EClosure _ => acc
   | EVar x | EPostInc x => add_var x acc
   | EBin _ a b | EAnd a b | EOr a b | ESame a b => vars_expr b (vars_expr a acc)
-  | ENot a | EMsg a | EClass a | ENew _ a => vars_expr a acc
+  | ENot a | EMsg a | EClass a | ENew _ a | EProp a | EHi a => vars_expr a acc
+  | ESetProp a b => vars_expr a (vars_expr b acc)
   | EAssign x e => add_var x (vars_expr e acc)
   | EArr a | ECall _ a => vars_args a acc
   | EIdx x i | EIdxInc _ x i => add_var x (vars_expr i acc)
@@ -54,6 +55,7 @@ Fixpoint vars_stmt (s : stmt) (acc : list string) {struct s} : list string :=
   | SSwitch c cl => vars_clauses cl (vars_expr c acc)
   | SStatic x _ => add_var x acc
   | STry b cs f => vars_stmt f (vars_catches cs (vars_stmt b acc))
+  | SIfInst x _ t e => vars_stmt e (vars_stmt t (add_var x acc))
   end
 with vars_elifs (l : elifs) (acc : list string) {struct l} : list string :=
   match l with EINil => acc | EICons c b r => vars_elifs r (vars_stmt b (vars_expr c acc)) end
@@ -125,7 +127,8 @@ Fixpoint cov_expr (e : expr) {struct e} : bool :=
   | EClosure id => match nth_error clos id with Some cd => mems (cuses cd) | None => true end
   | EVar x | EPostInc x => mem x vs
   | EBin _ a b | EAnd a b | EOr a b | ESame a b => cov_expr a && cov_expr b
-  | ENot a | EMsg a | EClass a | ENew _ a => cov_expr a
+  | ENot a | EMsg a | EClass a | ENew _ a | EProp a | EHi a => cov_expr a
+  | ESetProp a b => cov_expr b && cov_expr a
   | EAssign x e => mem x vs && cov_expr e
   | EArr a | ECall _ a => cov_args a
   | EIdx x i | EIdxInc _ x i => mem x vs && cov_expr i
@@ -154,6 +157,7 @@ Fixpoint cov_stmt (s : stmt) {struct s} : bool :=
   | SSwitch c cl => cov_expr c && cov_clauses cl
   | SStatic x _ => mem x vs
   | STry b cs f => cov_stmt b && cov_catches cs && cov_stmt f
+  | SIfInst x _ t e => mem x vs && cov_stmt t && cov_stmt e
   end
 with cov_elifs (l : elifs) {struct l} : bool :=
   match l with EINil => true | EICons c b r => cov_expr c && cov_stmt b && cov_elifs r end
